@@ -16,6 +16,19 @@ FUNCTIONS = ['pymeeus/Epoch.py:Epoch._compute_jde', 'pymeeus/Epoch.py:Epoch.get_
              'pymeeus/Epoch.py:Epoch.set', 'pymeeus/Epoch.py:Epoch.mjd', 'pymeeus/Epoch.py:Epoch.jde',
              'pymeeus/Epoch.py:Epoch.__init__', 'pymeeus/base.py:iint']
 
+MANIFEST = dict(
+    text=("Lean 4 theorems (Props/C01.lean) about the exact-arithmetic model of Epoch's date<->JDE core, for every "
+          "integer year >= -4712 without upper bound: read-back returns the date, consecutive civil dates are 1 day "
+          "apart incl. the 1582 reform step, every day number is hit (bijection), validation accepts exactly the days "
+          "the month has, the three anchors, month names. The model is tied to /repo by running it (binary64 and "
+          "exact instantiations) against the real code bit for bit: sampled in quick, all 3.9 million civil dates "
+          "-4712..6000 in thorough."),
+    note=("Trusted: Lean kernel, Mathlib, axioms propext/Classical.choice/Quot.sound; the hand-written model "
+          "(lean/templates/EpochCore.lean) and its correspondence run; string month names restricted to ASCII; "
+          "quantities are integers or k+1/2 so binary64 is exact and there is no idealisation gap for this property."),
+    technique="Lean 4 proof (staged omega over Meeus' floor recipes) + model/implementation correspondence check",
+    ref='6 C01')
+
 YMIN, YMAX = -4712, 6000
 MLEN = [31, 28, 31, 30, 31, 30, 31, 31, 30, 31, 30, 31]
 SHORT = ['Jan', 'Feb', 'Mar', 'Apr', 'May', 'Jun', 'Jul', 'Aug', 'Sep', 'Oct', 'Nov', 'Dec']
